@@ -151,6 +151,9 @@ impl PacketSender {
             match packet.mode {
                 SendMode::TimeSensitive => {
                     if packet.flush_id != flush_id {
+                        #[cfg(uflow_verif)]
+                        crate::verif::trace::emit(crate::verif::trace::Event::TsDropped { len: packet.data.len() });
+
                         self.total_size -= packet.data.len();
                         self.packet_send_queue.pop_front();
                     } else {
@@ -175,6 +178,11 @@ impl PacketSender {
             let packet = self.packet_send_queue.pop_front().unwrap();
 
             let sequence_id = self.next_id;
+
+            #[cfg(uflow_verif)]
+            crate::verif::trace::emit(crate::verif::trace::Event::PacketEmitted {
+                sequence_id, len: packet.data.len(), channel_id: packet.channel_id
+            });
             let ref mut channel = self.channels[packet.channel_id as usize];
 
             let window_parent_lead =
@@ -245,6 +253,11 @@ impl PacketSender {
 
         if receiver_delta > span {
             return;
+        }
+
+        #[cfg(uflow_verif)]
+        if self.base_id != receiver_base_id {
+            crate::verif::trace::emit(crate::verif::trace::Event::PacketBaseAdvanced { old: self.base_id, new: receiver_base_id });
         }
 
         while self.base_id != receiver_base_id {
